@@ -21,6 +21,7 @@ Theorem C47_no_lost_update : forall tr s,
   | SIdle => delivered s = allGroups (providers s) (targets s)
   | SSnap k acc => acc = fold_left (ag_prov (targets s)) (firstn k (providers s)) []
   | SHave acc => acc = allGroups (providers s) (targets s)
+  | SRearm => True   (* a failed send is being repaired: the put-back of the trigger is pending *)
   end.
 Proof. exact no_lost_update. Qed.
 
@@ -29,7 +30,13 @@ Proof. exact no_lost_update. Qed.
    send attempt finds it waiting).  Every such continuation has at most `rank s` steps, and
    from whatever state it has reached, either it has converged — sender idle, trigger clear,
    all updaters idle and the last delivered map = allGroups of the current state — or a further
-   fair step is enabled.  Hence every maximal fair continuation ends converged. *)
+   fair step is enabled.  Hence every maximal fair continuation ends converged.
+   This relies on the sender's put-back of the trigger after a failed send (ERearm) being
+   NON-BLOCKING: it is enabled in state SRearm whatever the trigger flag is.  If it blocked when
+   an updater or a reload has re-armed the trigger between ETake and the put-back, SRearm with
+   trigger = true would have no enabled sender step for ever (the sender is the only reader of
+   triggerSend) and the second disjunct would fail there; C47_nonvacuous goes through exactly
+   this window ([...; ESend (fails); ETrig 0; ERearm; ...]). *)
 Theorem C47_convergence : forall tr0 s tr s',
   run init tr0 = Some s -> fair_run s tr -> run s tr = Some s' ->
   (length tr + rank s' <= rank s)%nat /\
